@@ -516,6 +516,11 @@ def correspondence(ctx):
         dist[k] = dist.get(k, 0) + 1
         if nontrivial(c, obs, ref_eval(c["expr"])):
             nt.add(json.dumps([[p["cat"] for p in c["pool"]], c["expr"]]))
+    # the runner and the model it executes are (re)built from the current sources, independently of the proofs
+    ok, log, failed = core.compile_cone(core.coq_cone("run/RunC03.v"))
+    if not ok:
+        return {"evaluations": len(cases), "distinct_nontrivial": len(nt), "rule": "", "samples": keep[:3], "failing": [],
+                "error": "cannot build run/RunC03.v (%s):\n%s" % (failed, log[-1500:])}
     failing, err = core.run_cases(ctx.pid, IMPORTS, terms, chunk=400)
     return {"evaluations": len(cases), "distinct_nontrivial": len(nt),
             "rule": "every labelled digraph without self-loops and with >=1 edge on 2-3 nodes (quick) / 1-4 nodes + a 5-node sample "
